@@ -93,11 +93,15 @@ def abiconc(cq, ct):
     return {"name": "S-abi:concurrent creation and use", Q: ["abiconc", "--cases", str(cq)], T: ["abiconc", "--cases", str(ct)], "seeds_t": 4}
 
 
+def extras(cq, ct):
+    return {"name": "S-extras:library types outside the model (BitVec, BitSet, PathBuf, Range): direct oracles", Q: ["extras", "--cases", str(cq)], T: ["extras", "--cases", str(ct)], "seeds_t": 3}
+
+
 PROPS = {
     "C01": {
         "module": "Sfv.Props.C01",
         "tables": ["tables_prim_widths", "tables_option_result_tags", "tables_limits"],
-        "suites": [codec(8, 40), files(2, 8)],
+        "suites": [codec(8, 40), files(2, 8), extras(8, 40)],
         "oracle": ["C01"],
     },
     "C02": {
@@ -176,7 +180,7 @@ PROPS = {
     "C05": {
         "module": "Sfv.Props.C05",
         "tables": ["tables_header", "tables_schema_tags"],
-        "suites": [xtype(6, 40), schemas(3, 12), files(1, 4)],
+        "suites": [xtype(6, 40), schemas(3, 12), files(1, 4), xver(3, 12)],
         "oracle": ["C05"],
     },
     "C12": {
@@ -194,13 +198,13 @@ PROPS = {
     "C06": {
         "module": "Sfv.Props.C06",
         "tables": ["tables_limits", "tables_prim_packed"],
-        "suites": [malformed(6, 30), PACKED, schemas(2, 10)],
+        "suites": [malformed(6, 30), PACKED, schemas(2, 10), extras(8, 40)],
         "oracle": ["C06"],
     },
     "C07": {
         "module": "Sfv.Props.C07",
         "tables": ["tables_header"],
-        "suites": [cuts(1, 4)],
+        "suites": [cuts(1, 4), extras(4, 20)],
         "oracle": ["C07"],
     },
 }
